@@ -50,7 +50,11 @@ func runC20(p *Prog, r *Report) {
 	c20Tables(p, r)
 	// R5: headers are relayed by adding them to the client writer's, through a helper that adds every value (relay shape shared with C07.R2)
 	checkCopyHeadersHelper(p, r, "C20.R5", true, true)
-	r.Borrow(p, runC07, map[string]string{"C07.R2": "C20.R5"}, nil)
+	r.Borrow(p, runC07, map[string]string{"C07.R2": "C20.R5", "C07.R1": "C20.R5"}, nil)
+	// R8: a middleware answers every request: no lock is re-acquired while held on any call path (a self-deadlock leaves the request, and all later ones, without any response); shared with C09.R4
+	c09Reacquire(p, r, "C20.R8", c09RootTypes(p))
+	// R7: verbose/debug logging is transparent: the request dump only reads the request
+	checkDumpReadOnly(p, r, "C20.R7")
 	// R6: the rate limiter has no spurious reason to intervene: its bookkeeping call cannot fail for any configured rate (shared with C03.R10)
 	if tl := p.Named("ratelimit", "TokenLimiter"); tl != nil {
 		c03TTLPositive(p, r, "C20.R6", tl)
